@@ -75,6 +75,15 @@ CHECKS = {
        "audit events, third-party libraries. Method calls are classified by name.",
   technique="Rocq-checked obligations over a call inventory regenerated by a translator + audit-hook monitoring",
   design="4/C17"),
+ "C03": dict(
+  text="Coq theorem (C03/Props.v): the open-construct machine of FortranAST as driven by FortranFile.parse (every dereference of "
+       "current_scope and every stack pop is a possible Crash of the model) never crashes on ANY sequence of classified lines, keeps its "
+       "stack invariant, and close_file always ends with nothing open. The model is trace-validated: the implementation's own classification of "
+       "each logical line is recorded and replayed (scope objects, lines, parents, end errors compared). Totality of the text-level readers, the "
+       "preprocessor and the time bound are exercised on prefixes/mutants of all sample sources (parse and the didOpen/didChange path), not proved.",
+  note="Partial. Trusted: Coq kernel, vm_compute, recording wrappers, harness. Not modelled: statement readers, regex running time, wall time.",
+  technique="Rocq proof (safety invariant of a stack machine for all token streams) + trace validation + mutation-based crash oracle",
+  design="4/C03"),
 }
 NOT_YET = "not yet built in this round; see DESIGN.md section 8 (build order)"
 
